@@ -10,6 +10,17 @@ CHECKS = {
    ref="DESIGN.md section 5 C02"),
 }
 
+CHECKS["C11"] = dict(
+   technique="exhaustive token pairs/triples + property-based testing against a reference maximal-munch lexer, layout metamorphism",
+   text="All pairs of a 65-token vocabulary under 7 separators and all triples of a 36-token vocabulary are tokenised and compared token by token (type, text, byte offset, line, column) with an independent reference lexer; random token sequences and statements of every shipped .ucg file are re-laid-out with random whitespace, CRLF and comments and must give the same tokens and the same parsed program; Unicode string literals with every escape form are checked at token level and in the evaluated value.",
+   note="Trusts reference/grammar.md + types.md as the lexical specification; a boolean/NULL literal glued to a word character is unclaimed; column may be bytes or characters.",
+   ref="DESIGN.md section 5 C11")
+CHECKS["C03"] = dict(
+   technique="property-based testing (generated value trees) with independent decoders as round-trip oracle",
+   text="Generated value trees are converted by the json/yaml/toml/yamlmulti converters (registry call, `convert` expression and `out` statement of an evaluated program); the bytes are decoded by Python json / tomllib / PyYAML with a YAML-1.2 core-schema resolver and compared with the value (nesting, order, key set, strings, booleans, nulls, exact integers, float value). Unrepresentable values must be errors.",
+   note="Trusts the Python decoders as the meaning of the formats; serde_* parsers only classify decoder limitations; TOML corner cases the 0.5 serializer cannot express may be errors.",
+   ref="DESIGN.md section 5 C03")
+
 PENDING = {}
 
 def main():
